@@ -14,40 +14,48 @@ pub fn exec(run: u64, prog: &Value, out: &mut Out) {
     let mut c = Checksum::default();
     let (r, v) = obs(&c);
     out.emit(json!({"ev":"reset","run":run,"raw":r,"value":v,"panic":false}));
-    for op in list(prog, "ops") {
+    for (opi, op) in list(prog, "ops").iter().enumerate() {
         let name = str_of(get(op, "op"));
         if name == "append_fill" || name == "delete_fill" || name == "sink_vec_fill" {
             let n = u64_of(get(op, "n")) as usize;
             let b = u8_of(get(op, "b"));
-            let data = vec![b; n];
+            // the slice starts at every alignment in turn (an implementation may treat an unaligned head specially)
+            let off = (run as usize + n) % 16;
+            let buf = vec![b; n + off];
+            let data = &buf[off..];
             let res = guarded(|| match name {
-                "append_fill" => c.append(&data),
-                "delete_fill" => c.delete(&data),
-                _ => AmlSink::vec(&mut c, &data),
+                "append_fill" => c.append(data),
+                "delete_fill" => c.delete(data),
+                _ => AmlSink::vec(&mut c, data),
             });
             let (r, v) = obs(&c);
             out.emit(json!({"ev":name,"run":run,"n":n as u64,"b":b,"raw":r,"value":v,"panic":res.is_err()}));
             continue;
         }
         let arg = bytes_of(get(op, "arg"));
+        // slices are handed over at every alignment in turn
+        let off = (run as usize + arg.len() + opi) % 16;
+        let mut buf = vec![0xA5u8; off];
+        buf.extend_from_slice(&arg);
+        let arg = &buf[off..];
         let res = guarded(|| match name {
             "add" => c.add(arg[0]),
             "sub" => c.sub(arg[0]),
-            "append" => c.append(&arg),
-            "delete" => c.delete(&arg),
+            "append" => c.append(arg),
+            "delete" => c.delete(arg),
             "sink_byte" => AmlSink::byte(&mut c, arg[0]),
             "sink_word" => AmlSink::word(&mut c, u16::from_le_bytes([arg[0], arg[1]])),
             "sink_dword" => AmlSink::dword(&mut c, u32::from_le_bytes([arg[0], arg[1], arg[2], arg[3]])),
             "sink_qword" => {
                 let mut q = [0u8; 8];
-                q.copy_from_slice(&arg);
+                q.copy_from_slice(arg);
                 AmlSink::qword(&mut c, u64::from_le_bytes(q))
             }
-            "sink_vec" => AmlSink::vec(&mut c, &arg),
+            "sink_vec" => AmlSink::vec(&mut c, arg),
             _ => panic!("unknown checksum op {name}"),
         });
         let (r, v) = obs(&c);
-        out.emit(json!({"ev":name,"run":run,"arg":jbytes(&arg),"raw":r,"value":v,"panic":res.is_err()}));
+        out.emit(json!({"ev":name,"run":run,"arg":jbytes(arg),"raw":r,"value":v,"panic":res.is_err()}));
     }
 }
 
